@@ -72,6 +72,7 @@ TSkipLine == /\ Has(l)
                 \/ Line.ev = "Op" /\ Line.k \notin ReaderKinds /\ pc.st = "idle"
                 \/ Line.ev = "Geo" /\ Trace[l - 1].ev = "Op" /\ Trace[l - 1].k \notin ReaderKinds
                 \/ Line.ev = "End" /\ pc.st = "idle"
+                \/ Line.ev \in {"Panic", "Crash"} /\ pc.st = "idle"      \* (writer side, e.g. a known finding): not judged here
              /\ l' = l + 1 /\ UNCHANGED lvars
 
 TLoopExit == Has(l) /\ Line.ev = "Op" /\ LoopExit /\ UNCHANGED l
